@@ -55,6 +55,17 @@ def main() -> int:
     finally:
         subprocess.run(["git", "-C", "/repo", "worktree", "remove", "--force", wt])
         subprocess.run(["rm", "-rf", scratch])
+    if only and os.path.exists(os.path.join(seeded, "RESULTS.md")):
+        # a partial run replaces the rows of the ids it was given and keeps the others
+        import re
+
+        keep = []
+        mine = {r[0] for r in rows}
+        for line in open(os.path.join(seeded, "RESULTS.md")):
+            m = re.match(r"\| (C\d\d-[A-Z]) \| (C\d\d) \| ([^|]+) \| ([^|]*) \| (.*) \|$", line.rstrip())
+            if m and m.group(1) not in mine:
+                keep.append(tuple((x.strip() if i < 4 else x).replace("\\|", "|") for i, x in enumerate(m.groups())))
+        rows = sorted(keep + rows, key=lambda r: r[0])
     with open(os.path.join(seeded, "RESULTS.md"), "w") as fh:
         fh.write("# Seeded changes vs. checks (written by tools/run_seeded.py)\n\n")
         fh.write("| seeded change | breaks | own check | checks that exit 1 | first reports |\n|---|---|---|---|---|\n")
